@@ -33,7 +33,7 @@ PROPS = ("C03",)
 def plan(tier, seed):
     shards = []
     if tier == "quick":
-        shards.append({"kind": "silent", "tier": tier, "seed": seed, "shard": 0, "start": 64000, "datagrams": 40000, "subprocess": True})
+        shards.append({"kind": "silent", "tier": tier, "seed": seed, "shard": 0, "start": 64000, "datagrams": 70000, "subprocess": True})
         shards.append({"kind": "silent", "tier": tier, "seed": seed, "shard": 1, "start": 65530, "datagrams": 30000, "dt": 1 / 30, "subprocess": True})
         shards.append({"kind": "burst", "tier": tier, "seed": seed, "shard": 0, "ticks": 20000, "subprocess": True})
         for off in (-2, -1, 0, 1, 2):
